@@ -10,7 +10,9 @@ out=/verif/selftest_results.txt; : > $out
 export CARGO_TARGET_DIR=$S/target
 sync_scratch() {
   mkdir -p $S
-  rsync -a --delete --exclude target --exclude .git /repo/ $S/repo/
+  # cargo decides by mtime: a file that rsync puts back (old mtime) or tar extracts (commit time) would
+  # look "not newer than the build" and a stale artifact would be reused: touch whatever changed
+  rsync -ai --delete --exclude target --exclude .git /repo/ $S/repo/ | awk '/^>f/ {print $2}' | while read -r f; do touch "$S/repo/$f"; done
   rsync -a --delete --exclude 'target*' --exclude .git --exclude replays --exclude evidence --exclude seeded --exclude selftest_results.txt /verif/ $S/verif/
   sed -i "s#\"/repo#\"$S/repo#g" $S/verif/harness/*/Cargo.toml
 }
@@ -24,7 +26,7 @@ echo "## trees just before each fix commit (defect present again)" | tee -a $out
 grep '^fixed:' known_findings.txt | while read -r _ prop commit rest; do
   p=${prop#property=}
   sync_scratch
-  git -C /repo archive ${commit}^ src postgres redis sync sqlite r2d2 diesel runtime | tar -x -C $S/repo
+  git -C /repo archive ${commit}^ src postgres redis sync sqlite r2d2 diesel runtime | tar -x -m -C $S/repo
   echo "pre-fix $commit ($p): $(run_check $p)" | tee -a $out
 done
 echo "## mutants/" | tee -a $out
